@@ -71,6 +71,47 @@ class SDec:
             return SBool(self.as_real() == SDec.of(o).as_real())
         return NotImplemented
 
+    def _cmp(f):
+        def g(self, o):
+            if isinstance(o, (int, SInt, Decimal, SDec)):
+                return SBool(f(self.as_real(), SDec.of(o).as_real()))
+            return NotImplemented
+        return g
+
+    __lt__ = _cmp(lambda a, b: a < b)
+    __le__ = _cmp(lambda a, b: a <= b)
+    __gt__ = _cmp(lambda a, b: a > b)
+    __ge__ = _cmp(lambda a, b: a >= b)
+
+    def __add__(self, o):
+        o = SDec.of(o)
+        e = min(self.exp, o.exp) if isinstance(self.exp, int) and isinstance(o.exp, int) else None
+        if e is None:
+            raise EngineLimit("Decimal addition with a symbolic exponent")
+        return SDec(self.num * 10 ** (self.exp - e) + o.num * 10 ** (o.exp - e), e)
+
+    __radd__ = __add__
+
+    def __neg__(self):
+        return SDec(-self.num, self.exp)
+
+    def __sub__(self, o):
+        return self + (-SDec.of(o))
+
+    def __rsub__(self, o):
+        return SDec.of(o) + (-self)
+
+    def __trunc__(self):
+        return SReal(self.as_real()).__trunc__()
+
+    __int__ = __trunc__
+
+    def __round__(self, nd=None):
+        return SReal(self.as_real()).__round__(nd)
+
+    def __bool__(self):
+        return bool(SBool(self.as_real() != 0))
+
     def __ne__(self, o):
         r = self.__eq__(o)
         return r if r is NotImplemented else ~r
